@@ -1482,6 +1482,11 @@ class EvolveAppTask(BaseEvolutionTask):
                     else:
                         imports.add(import_str)
 
+        if any('models.' in line for line in mutation_lines):
+            # Field types, Q objects, expressions and constraint types in
+            # any mutation (not just AddField) are rendered as "models.X".
+            imports.add('from django.db import models')
+
         imports.add('from django_evolution.mutations import %s'
                     % ', '.join(sorted(mutation_types)))
 
